@@ -67,11 +67,26 @@ def work(task):
   for i in range(shard, len(cs), nsh):
     c = cs[i]
     rules = prepare(c)
+    compile_twin(c, h)
     h.run_case(c, classify, ordered=c.info['ordered'], prepared_rules=rules, prefilter=prefilter)
   res = h.result(); h.close()
   for v in res['viol']:
     v['case']['pickle'] = base64.b64encode(pickle.dumps(c01.find(cs, v['case']['text']))).decode()
   return res
+
+
+def compile_twin(c, h):
+  """History of length two: the same process first compiles the program WITHOUT its order_by / limit (same predicate names), then the
+  case itself; whatever the first compilation leaves behind must not change what the second one means."""
+  stmts = []
+  for st in c.program.stmts:
+    if isinstance(st, lang.Rule): st = st.replace(order_by=None, limit=None)
+    elif isinstance(st, lang.Ann) and st.text.startswith(('@OrderBy', '@Limit')): continue
+    stmts.append(st)
+  twin = lang.Program(stmts)
+  for p in c.preds:
+    impl.Compiled(twin.text()).sql(p)
+  h.stats['twin_compiles'] = h.stats.get('twin_compiles', 0) + len(c.preds)
 
 
 def coverage(ctx, merged):
